@@ -11,6 +11,17 @@ def designs_of(case, which, transform=None, budget_scale=None):
   from matched_markets.methodology import tbrmmdata, tbrmmdesignparameters as P, tbrmatchedmarkets as MM, geoeligibility as G
   par = dict(search.finish_params(case))
   df = search.frame_of(case)
+  if case.get('dup_cells'):
+    # some (geo, date) cells are reported in two rows (v - d, v + d): the panel is their mean, whatever the row order
+    rng = random.Random(case['seed'] * 13 + 1)
+    pick = [i for i in range(len(df)) if rng.random() < 0.3]
+    extra = df.iloc[pick].copy()
+    delta = [rng.choice([0.5, 1.0, 4.0, 16.0]) for _ in pick]
+    col = df.columns.get_loc('response')
+    for i, d in zip(pick, delta):
+      df.iloc[i, col] = df.iloc[i, col] - d
+    extra['response'] = extra['response'] + delta
+    df = pd.concat([df, extra], ignore_index=True)
   elig = None
   if case['elig'] is not None:
     elig = pd.DataFrame([{'geo': g, 'control': search.TYPES[v][0], 'treatment': search.TYPES[v][1], 'exclude': search.TYPES[v][2]}
@@ -144,6 +155,7 @@ def run(tier):
     c = search.gen_case(ck.seed * 100003 + 12 * 1009 + i, tier, max_geos=5)
     c['shuffle'] = False
     c['int_ids'] = False
+    c['dup_cells'] = i % 3 == 2
     cases.append(c)
   res = common.pmap(_one, cases, chunksize=2)
   pairs = 0
@@ -160,13 +172,15 @@ def run(tier):
         ck.fail('presentation-dependence', f, {'case': searchfam.slim(c)})
       break
   ck.sample({'seed': cases[0]['seed'], 'transformations': ['shuffle rows + shift dates', 'rename geos', 'scale by 2^k', 'integer IDs']})
-  ck.cov['rule'] = ('generated search cases (<= 5 geos); for both searches the designs on the original input are compared with '
+  ck.cov['rule'] = ('generated search cases (<= 5 geos; in one third some (geo, date) cells are reported in two rows); for both searches the designs on the original input are compared with '
                     'the designs on four transformed inputs: rows shuffled + all dates shifted + eligibility rows shuffled; geos '
                     'renamed injectively (eligibility alike, results mapped back); integer instead of string IDs; responses and '
                     'budget range multiplied by 2^k, k in -3..3 (groups, tests, correlations bit-equal, required impact scaled '
                     'exactly). non-trivial: at least one pair compared')
   ck.cov['metamorphic_pairs_compared'] = pairs
   ck.cov['skipped'] = skipped
+  ck.cov['distribution'] = {'panels_with_cells_reported_in_two_rows': sum(1 for c in cases if c.get('dup_cells')),
+                            'one_row_per_cell': sum(1 for c in cases if not c.get('dup_cells'))}
   ck.assumptions = ['domain: distinct geo means and no score ties (otherwise geo IDs break ties legitimately)',
                     'multiplication of binary64 data by a power of two is exact (no overflow / underflow)']
   return ck.finish('proof', searchfam.TRUSTED_BASE + [
